@@ -1,4 +1,5 @@
 #pragma once
+#include "../../common/verif_hooks.h"
 
 #include "../extrapolatedSmoother.h"
 
@@ -20,6 +21,7 @@ public:
     void extrapolatedSmoothing(Vector<double>& x, const Vector<double>& rhs, Vector<double>& temp) override;
 
 private:
+    GMGPOLAR_VERIF_FRIEND
     void extrapolatedSmoothingSequential(Vector<double>& x, const Vector<double>& rhs, Vector<double>& temp);
     void extrapolatedSmoothingForLoop(Vector<double>& x, const Vector<double>& rhs,
                                       Vector<double>& temp); /* This is the fastest option */
